@@ -166,8 +166,65 @@ def _d5_cases(tier, lo, hi):
         yield {"kind": "bin", "W": A.astype(float)}
 
 
+def check_big(case, ctx):
+    """Large, heavily tied structures (layered graphs with astronomically many equal-length shortest paths; long chains of cliques).
+    The full brute-force oracle is too slow here, so this unit checks the cheap consequences of the definition that the property
+    itself states: node values sum to the total of (distance - 1), connection values to the total of distances, nothing is negative,
+    the node vectors of the edge routines equal the node routines', and the weighted routines agree with the binary ones."""
+    layers, width = case["layers"], case["width"]
+    n = layers * width
+    A = np.zeros((n, n))
+    for l in range(layers - 1):
+        a = slice(l * width, (l + 1) * width)
+        b = slice((l + 1) * width, (l + 2) * width)
+        A[a, b] = 1
+        if not case["directed"]:
+            A[b, a] = 1
+    fails = []
+    D = og.bfs_dist(A)
+    off = ~np.eye(n, dtype=bool)
+    fin = np.isfinite(D) & off
+    want_bc = float(np.sum(D[fin] - 1))
+    want_ebc = float(np.sum(D[fin]))
+    ctx.mark_nontrivial(case)
+    res = {}
+    for name, f in (("betweenness_bin", bct.betweenness_bin), ("betweenness_wei", bct.betweenness_wei),
+                    ("edge_betweenness_bin", bct.edge_betweenness_bin), ("edge_betweenness_wei", bct.edge_betweenness_wei)):
+        o = ctx.call(f, A.copy(), timeout=60)
+        if o.ok:
+            res[name] = o.value
+        elif o.status != "timeout":
+            fails.append(Failure("crash:%s:%s" % (name, o.exc_name()), repr(o.exc)[:200], case))
+    for name in ("betweenness_bin", "betweenness_wei"):
+        if name in res:
+            bc = np.asarray(res[name], dtype=float)
+            if np.any(bc < -1e-9) or not np.isclose(bc.sum(), want_bc, rtol=1e-9):
+                fails.append(Failure("%s:sum-not-total-of-(d-1)" % name, "sum %r (min %r) vs %r on a %dx%d layered graph" % (bc.sum(), bc.min(), want_bc, layers, width), case))
+    for name in ("edge_betweenness_bin", "edge_betweenness_wei"):
+        if name in res:
+            ebc, bc = np.asarray(res[name][0], dtype=float), np.asarray(res[name][1], dtype=float)
+            if np.any(ebc < -1e-9) or not np.isclose(ebc.sum(), want_ebc, rtol=1e-9):
+                fails.append(Failure("%s:sum-not-total-of-d" % name, "sum %r (min %r) vs %r" % (ebc.sum(), ebc.min(), want_ebc), case))
+            ref = res.get("betweenness_bin")
+            if ref is not None and not np.allclose(bc, np.asarray(ref, dtype=float), rtol=1e-9, atol=1e-9):
+                fails.append(Failure("%s:node-vector-differs-from-node-routine" % name, "max |diff| %r" % float(np.max(np.abs(bc - np.asarray(ref)))), case))
+    if "betweenness_bin" in res and "betweenness_wei" in res and not np.allclose(res["betweenness_bin"], res["betweenness_wei"], rtol=1e-9, atol=1e-9):
+        fails.append(Failure("betweenness_wei:differs-from-binary-routine-on-0/1-input", "", case))
+    return fails
+
+
+def _big_cases(tier, lo, hi):
+    combos = [(L, w, d) for (L, w) in ((42, 3), (66, 2), (33, 4), (22, 6), (12, 3), (8, 2)) for d in (False, True)]
+    for k in range(lo, hi):
+        L, w, d = combos[k % len(combos)]
+        yield {"layers": L, "width": w, "directed": d}
+
+
 def units(tier):
     us = [
+        Unit("layered-large", check_big, count=lambda t: 12, cases=_big_cases, shards=(12, 12),
+             space="layered graphs (consecutive layers completely connected) with 2^66, 3^42, 4^33 and 6^22 shortest paths between the end layers, "
+                   "directed and undirected; cheap consequences of the definition only (sum identities, non-negativity, agreement of the four routines)"),
         Unit("exhaustive-binary", check, count=lambda t: _space(t).total, cases=_exh_cases,
              shards=(16, 64), space=_space(tier).describe() + " as 0/1 float64"),
         Unit("exhaustive-lengths", check, count=c03._w_total, cases=c03._w_cases, shards=(16, 64),
